@@ -51,11 +51,6 @@ def parse(chain):
     return links
 
 
-def n_frames(chain, base):
-    """number of frames of the true stack (without counting frames of stackscope)"""
-    return (4 if base == "thread" else None), len(parse(chain))
-
-
 def _call(j, link, caller_kind):
     mods, kind = link
     target = f"ctx.sd[{j}]" if "d" in mods else f"ctx.fns[{j}]"
